@@ -68,7 +68,7 @@ def decodeTextItems : Nat → Bytes → Option (List TextItem)
       | none => none
       | some (line, rest) =>
         let parts := splitSpace line
-        if parts.headD [] = word "VALUE" then
+        if parts.headD [] = [86, 65, 76, 85, 69] then
           match parts with
           | [_, key, fl, len] =>
             match parseUint32 fl, parseUint32 len with
@@ -139,7 +139,7 @@ def binMatches (c : Cmd) (exp : SOut) (fs : List BinFrame) : Bool :=
 
 def isLine (it : TextItem) (s : String) : Bool :=
   match it with
-  | .line l => l == word s
+  | .line l => l == Bytes.ofString s
   | _ => false
 
 /-- Text: the items answering one command, against the specification's answer. -/
